@@ -192,11 +192,12 @@ func init() {
 			"range expression wrapped in a logged evaluation (exactly once); oracle: trace equality with the native range statement (multiset equality for maps with >= 2 entries); " +
 			"non-trivial = the loop runs >= 2 iterations or the collection is mutated in the body; distinct by hash(program)+input")
 		table := rangeTable()
+		table = append(table, rangeShapePrograms()...)
 		spec := &diffSpec{
 			profiles: []*profile{rangeProfile()}, batchSize: 40, batches: rs.vol(12, 400),
 			fixed: table,
 			nontrivial: func(p *Program, r *Record) bool {
-				return p.hasTag("iterations>=2") || p.hasTag("mutation") || (p.hasTag("range") && r.Events >= 3)
+				return p.hasTag("iterations>=2") || p.hasTag("mutation") || (p.hasTag("range") && r.Events >= 3) || strings.HasPrefix(p.Profile, "shape:")
 			},
 		}
 		rs.exh = append(rs.exh, "range table: "+itoa(len(table))+" programs (19 collections x 5 variable forms x 2 tokens x 7 body shapes, impossible combinations removed)")
@@ -255,6 +256,7 @@ func init() {
 			table = append(table, mkShapeProgram("Z"+itoa(100+i), sh))
 		}
 		table = append(table, delegationPrograms()...)
+		table = append(table, rangeShapePrograms()...)
 		spec := &diffSpec{
 			profiles: []*profile{controlFlowProfile(), scopingProfile(), rangeProfile(), delegationProfile(), consumerProfile()}, batchSize: 40, batches: rs.vol(12, 600),
 			fixed: table, fixedStyles: true,
